@@ -12,6 +12,13 @@ class blocks:
         for pad in (None, 0, "", False):
             for size, hop, L in ((2, 1, 3), (3, 3, 4), (2, 5, 6), (4, 2, 5)):
                 yield {"L": L, "size": size, "hop": hop, "pad": repr(pad)}
+        # heterogeneous items: a None item at every position (inside blocks and inside the skipped gaps)
+        for size, hop, L in ((2, 3, 11), (1, 4, 9), (3, 2, 8), (2, 2, 6)):
+            for hole in range(L):
+                yield {"L": L, "size": size, "hop": hop, "none_at": hole}
+        # scale: sizes and hops above 256
+        for size, hop, L in ((258, 259, 1300), (300, 100, 1000), (257, 257, 800), (260, 400, 1500)):
+            yield {"L": L, "size": size, "hop": hop}
 
     @staticmethod
     def model(L, size, hop, pad="pad"):
@@ -32,14 +39,18 @@ class blocks:
         H = size if hop is None else hop
         pad = eval(inp["pad"]) if "pad" in inp else "pad"
         want = blocks.model(L, size, hop, pad)
+        items = list(range(L))
+        if inp.get("none_at") is not None:
+            items[inp["none_at"]] = None
+            want = [[(None if (isinstance(v, int) and not isinstance(v, bool) and v == inp["none_at"]) else v) for v in blk] for blk in want]
         for via in ("function", "Stream.blocks", "list", "tuple", "range"):
-            src = Counting(range(L))
+            src = Counting(items)
             if via == "function":
                 g = real_blocks(src, size=size, hop=hop, padval=pad)
             elif via == "Stream.blocks":
                 g = iter(Stream(src).blocks(size=size, hop=hop, padval=pad))
             else:       # a re-iterable container given directly
-                g = real_blocks({"list": list, "tuple": tuple, "range": lambda r: r}[via](range(L)), size=size, hop=hop, padval=pad)
+                g = real_blocks({"list": list, "tuple": tuple, "range": lambda r: (range(L) if inp.get("none_at") is None else list(r))}[via](items), size=size, hop=hop, padval=pad)
             if src.pulled != 0:
                 return "%s: construction read %d items" % (via, src.pulled)
             got = []
